@@ -872,6 +872,15 @@ impl TransportManager {
                 ?error,
                 "connection limit exceeded, rejecting connection",
             );
+
+            // The rejected connection may be the outcome of our own dial, which is no longer
+            // tracked in `pending_connections`. The transport drops rejected connections without
+            // reporting a dial failure, so the dial must be concluded here. Otherwise the peer
+            // would remain in a dialing state forever and could never be dialed again.
+            if let Some(context) = self.peers.write().get_mut(&peer) {
+                context.state.on_dial_failure(endpoint.connection_id());
+            }
+
             return Ok(ConnectionEstablishedResult::Reject);
         }
 
